@@ -9,6 +9,7 @@ import (
 	"github.com/emitter-io/emitter/verif/core"
 	"github.com/emitter-io/emitter/verif/drivers/authz"
 	vcrdt "github.com/emitter-io/emitter/verif/drivers/crdt"
+	"github.com/emitter-io/emitter/verif/drivers/history"
 	"github.com/emitter-io/emitter/verif/drivers/mqttc"
 	"github.com/emitter-io/emitter/verif/drivers/session"
 	"github.com/emitter-io/emitter/verif/drivers/trie"
@@ -19,6 +20,7 @@ var checks = map[string]func(*core.Ctx){
 	"C02": session.RunC02,
 	"C03": authz.RunC03,
 	"C04": vcrdt.Run,
+	"C06": history.Run,
 	"C07": session.RunC07,
 	"C08": session.RunC08,
 	"C11": authz.RunC11,
